@@ -34,7 +34,14 @@ const (
 	modeZero  = 0
 	modeExact = 1
 	modeRaw   = 2
+	// the handler does what the documentation suggests - it calls SkipValue (3), SkipValueFast (4) or ReadValue (5)
+	// on its member and returns that call's offset and error as they are: the error is then one of the library's own
+	modeOwnSkip = 3
+	modeOwnFast = 4
+	modeOwnRead = 5
 )
+
+const ownLibErr = 98 // the id under which "the error the handler's own call returned" is recorded
 
 type answer struct {
 	mode int
@@ -55,6 +62,7 @@ type scripted struct {
 	deflt  answer
 	calls  []callRec
 	inner  func(data []byte) // optional re-entrant action
+	ownErr error             // the library error the handler propagated (modes 3..5)
 }
 
 // exactEnd finds the end of the first value of data with encoding/json (an
@@ -93,6 +101,28 @@ func (s *scripted) handle(key, data []byte, isObj bool) (int, error) {
 		s.inner(data)
 	}
 	a, pp := s.answerFor(data)
+	if a.mode >= modeOwnSkip && a.mode <= modeOwnRead {
+		var err error
+		switch a.mode {
+		case modeOwnSkip:
+			pp, err = rjson.SkipValue(data, nil)
+		case modeOwnFast:
+			pp, err = rjson.SkipValueFast(data, nil)
+		default:
+			_, pp, err = rjson.ReadValue(data)
+		}
+		rec := callRec{off: cap(s.doc) - cap(data), pp: pp, mode: a.mode}
+		if isObj {
+			rec.kf = cap(s.doc) - cap(key)
+			rec.kt = rec.kf + len(key)
+		}
+		if err != nil {
+			rec.err = ownLibErr
+			s.ownErr = err
+		}
+		s.calls = append(s.calls, rec)
+		return pp, err
+	}
 	rec := callRec{off: cap(s.doc) - cap(data), pp: pp, err: a.err, mode: a.mode}
 	if isObj {
 		rec.kf = cap(s.doc) - cap(key)
@@ -124,6 +154,15 @@ func errID(err error) int {
 		return -2
 	}
 	return -1
+}
+
+func sameErr(a, b error) (same bool) {
+	defer func() {
+		if recover() != nil {
+			same = false
+		}
+	}()
+	return a == b
 }
 
 func clsOf(pp int) (int, int) {
@@ -206,7 +245,11 @@ func runHandle(sw *shardWriter, j *jb, kind byte, data []byte, script []answer, 
 	if cls, _ := clsOf(rp); cls != 0 {
 		rp = -2 // an absurd offset; only meaningful together with err
 	}
-	j.ints([]int{b2i(err == nil && panicked == 0), rp, errID(err), panicked})
+	eid := errID(err)
+	if h.ownErr != nil && sameErr(err, h.ownErr) {
+		eid = ownLibErr // the identical value the handler's own call produced
+	}
+	j.ints([]int{b2i(err == nil && panicked == 0), rp, eid, panicked})
 	j.raw(`,"unch":`)
 	j.b01(bytes.Equal(orig, doc))
 	j.raw(`}`)
@@ -285,6 +328,10 @@ func genHandlers(c *genCtx) error {
 					runHandle(c.sw, &w.j, kind, in, nil, zero, nil, st, "sw")
 					if !base.edge || c.thorough() || n%3 == 0 {
 						runHandle(c.sw, &w.j, kind, in, nil, exact, &w.used, st, "sw")
+					}
+					if n%4 == 1 {
+						// a handler that returns the offset and the error of its own call on the member
+						runHandle(c.sw, &w.j, kind, in, nil, answer{mode: modeOwnSkip + (n/4)%3}, nil, st, "sw")
 					}
 					if viable && n%8 == 0 {
 						// mixed strategies on (possibly completed) documents
